@@ -153,6 +153,9 @@ type Opt struct {
 	MaxCQ       int           // per-connection limit of a traditional connection (0 = default 32)
 	LazyQueue   int           // queue limit while dialing (0 = default 16)
 	IdleTimeout time.Duration // 0 = default
+	// WrapDnsConn, if set, wraps every connection the pipeline transport dials
+	// (used to order ReserveNewQuery calls of concurrent callers).
+	WrapDnsConn func(transport.DnsConn) transport.DnsConn
 }
 
 // Kinds: tdc (one TraditionalDnsConn, dialled immediately), pipe (PipelineTransport over
@@ -173,7 +176,11 @@ func NewEngine(kind string, env *Env, o Opt) (Engine, error) {
 				if err != nil {
 					return nil, err
 				}
-				return transport.NewDnsConn(topts, c), nil
+				var dc transport.DnsConn = transport.NewDnsConn(topts, c)
+				if o.WrapDnsConn != nil {
+					dc = o.WrapDnsConn(dc)
+				}
+				return dc, nil
 			},
 			MaxConcurrentQueryWhileDialing: o.LazyQueue,
 		})
